@@ -835,10 +835,20 @@ class HexaryTrie:
         scratch_db = ScratchDB(self.db)
         with scratch_db.batch_commit(do_deletes=self.is_pruning):
             Trie = type(self)
+            if self.is_pruning:
+                # The batch works on its own copy of the reference counts, so that
+                # a batch which is aborted by an exception leaves them untouched.
+                batch_ref_count = self._ref_count.copy()
+            else:
+                batch_ref_count = None
             memory_trie = Trie(
-                scratch_db, self.root_hash, prune=True, ref_count=self._ref_count
+                scratch_db, self.root_hash, prune=True, ref_count=batch_ref_count
             )
             yield memory_trie
+
+        if self.is_pruning:
+            # The batch was committed: adopt its reference counts
+            self._ref_count = memory_trie._ref_count
 
         if self.root_hash != memory_trie.root_hash:
             try:
